@@ -94,6 +94,11 @@ class Probe(BaseNode):
         w = jnp.asarray(jax.random.key_data(rng) if jnp.issubdtype(rng.dtype, jax.dtypes.prng_key) else rng).reshape(-1)[-1] % 97
         return Out(jnp.asarray(w, dtype=jnp.int32).reshape(1), jnp.array([0.0], dtype=jnp.float32))
 
+    def startup(self, graph_state, timeout=None):
+        # optional user hook run by AsyncGraph.start() before the episode's clock starts (e.g. homing a robot): may take a while
+        if getattr(self, "slow_startup", 0): time.sleep(self.slow_startup)
+        return True
+
     def init_state(self, rng=None, graph_state=None): return Out(jnp.array([1 + self.nid], dtype=jnp.int32), jnp.array([0.0], dtype=jnp.float32))
     def init_output(self, rng=None, graph_state=None): return Out(jnp.array([3 + self.nid], dtype=jnp.int32), jnp.array([DEFAULT_F], dtype=jnp.float32))
 
@@ -143,6 +148,7 @@ def build(cfg):
         N[n].adaptive = bool(nd.get("adaptive", False))
         N[n].rng_params = bool(cfg.get("rng_params", False))
         N[n].adaptive_params = bool(cfg.get("adaptive_params", False))
+        N[n].slow_startup = float(cfg.get("slow_startup", 0)) if n == sorted(cfg["nodes"])[0] else 0
     for c, cc in cfg["conns"].items():
         N[cc["in"]].connect(N[cc["out"]], blocking=cc["blocking"], delay=cc["exp"] * T, delay_dist=TableDist.create(cc["delays"]),
                             window=cc["window"], skip=cc["skip"],
@@ -267,8 +273,9 @@ def run_history(job):
         start = last_gs if (job.get("carry") and ei > 0 and last_gs is not None) else gs0
         gs = start; ss = None; obs = []; info = dict(calls_done=[], gate=None)
         for op in hist:
-            if op == "reset": gs, ss = g.reset(start); obs.append(canon_ss(ss))   # every (re)start is from the initial (or, carry, the previous episode's last) graph state
-            elif op == "step": gs, ss = g.step(gs); obs.append(canon_ss(ss))
+            wall = job.get("clock", "sim") != "sim"        # wall-clock step states carry off-lattice times: only seq is kept
+            if op == "reset": gs, ss = g.reset(start); obs.append(dict(seq=int(ss.seq)) if wall else canon_ss(ss))   # every (re)start is from the initial (or, carry, the previous episode's last) graph state
+            elif op == "step": gs, ss = g.step(gs); obs.append(dict(seq=int(ss.seq)) if wall else canon_ss(ss))
             elif op == "run": gs = g.run(gs)
             elif op == "stop":
                 if gate is not None:
@@ -277,13 +284,23 @@ def run_history(job):
                 if gate is not None: info["gate"]["log"] = list(gate.log)
             info["calls_done"].append(op)
         ra._verif_hook = None
+        first_ts = None
         try:
-            c = canon_record(cfg, g.get_record(), rec)
+            raw_rec = g.get_record()
+            # wall-clock episodes: when (in seconds since the episode's time origin) every node's first step started
+            first_ts = {n: float(onp.asarray(nr.steps.ts_end)[0] - onp.asarray(nr.steps.delay)[0]) for n, nr in raw_rec.nodes.items() if len(nr.steps.ts_start) > 0}
+            for n, nr in raw_rec.nodes.items():       # ... and when its first message was received
+                for m, ir in nr.inputs.items():
+                    tr = onp.asarray(ir.messages.ts_recv)
+                    if len(tr) > 0: first_ts[f"{m}>{n}"] = float(tr[0]) - float(onp.asarray(ir.messages.delay)[0])
+            c = canon_record(cfg, raw_rec, rec)
         except TypeError as e:
+            c = dict(error="record_unavailable:" + str(e)[:80])
+        except ValueError as e:      # wall-clock times are off the lattice: no canonical record
             c = dict(error="record_unavailable:" + str(e)[:80])
         last_gs = gs
         calls = host_calls(N)
-        episodes.append(dict(record=c, obs=obs, info=info, eps=[int(n.eps) for n in g._async_nodes.values()], calls=calls))
+        episodes.append(dict(record=c, obs=obs, info=info, eps=[int(n.eps) for n in g._async_nodes.values()], calls=calls, first_ts=first_ts))
     return dict(id=job["id"], node_phase=nph, conn_phase=cph, episodes=episodes)
 
 
